@@ -197,6 +197,9 @@ func e1Add(n ipld.Node) (bool, error) {
 		return true, nil
 	}
 	e1Yield("store.Add")
+	if tc := taskCtxs[t]; tc != nil && tc.cur != nil && tc.cur.d.failAdd {
+		return true, errInjected
+	}
 	t.blocks = append(t.blocks, n)
 	return true, nil
 }
